@@ -16,9 +16,15 @@
 //                   (events = 45 points of the 9-level (Sw,Sg) triangle),
 //                   state key = hysteresis getters of both two-phase laws,
 //                   reference model = running extremes of the histories.
+//   d  hyst x eps : the product of b and c: the BFS of part c on cells of an ENDSCALE deck
+//                   (two-point / three-point SCALECRS) whose drainage and imbibition (I-)
+//                   end-point arrays move the connate, critical and maximum nodes; oracles of c
+//                   in scaled saturation against a hysteresis-free manager with the same
+//                   end-points; forward and inverse saturation maps are mutual inverses (also in b).
 // Case strings (replay):  "a <listsize> <idx> <partner> <nreg> <field>"
 //                         "b <base> <mode> <k>:<v>,<k>:<v>..."
 //                         "c <table> <model> <flag> <imb> <levels> <e,e,e...>"
+//                         "d <model> <flag> <mode> <endpointset> <imb> <levels> <e,e,e...>"
 #include "config.h"
 #include "vf.hpp"
 
@@ -421,6 +427,24 @@ static bool consistent(const EndPts& e, const bool* has) {
 struct RefB { World w; std::vector<Obs> obs; };
 static std::map<int, RefB> g_refB;                 // base -> unscaled world (no ENDSCALE), cells: 0..2 region 1, 3 region 2
 
+// forward (cell -> table) and inverse (table -> cell) saturation maps are mutual inverses between the outer anchors
+template <class S2U, class U2S, class Pts>
+static void checkInverse(const std::string& key, const char* what, S2U&& s2u, U2S&& u2s, const Pts& up, const Pts& sp, const std::string& cs) {
+    for (int k = 0; k <= 64; ++k) {
+        const double u = up[0] + (up[2] - up[0]) * k / 64.0, s = sp[0] + (sp[2] - sp[0]) * k / 64.0;
+        const double u2 = s2u(u2s(u)), s2 = u2s(s2u(s));
+        if (!close_(u2, u)) { R->violation(key, std::string(what) + ": scaledToUnscaled(unscaledToScaled(" + g17(u) + ")) = " + g17(u2) + " (anchors table " + g17(up[0]) + "," + g17(up[1]) + "," + g17(up[2]) + " cell " + g17(sp[0]) + "," + g17(sp[1]) + "," + g17(sp[2]) + ") [" + cs + "]", rp_(cs)); return; }
+        if (!close_(s2, s)) { R->violation(key, std::string(what) + ": unscaledToScaled(scaledToUnscaled(" + g17(s) + ")) = " + g17(s2) + " (anchors table " + g17(up[0]) + "," + g17(up[1]) + "," + g17(up[2]) + " cell " + g17(sp[0]) + "," + g17(sp[1]) + "," + g17(sp[2]) + ") [" + cs + "]", rp_(cs)); return; }
+    }
+}
+template <class Eps, class P>
+static void checkInverseAll(const std::string& prefix, const std::string& M, const char* sys, const P& p, const std::string& cs) {
+    const auto& U = p.unscaledPoints(); const auto& S = p.scaledPoints();
+    checkInverse(prefix + "inverse-map-krw-" + sys + M, "krw saturation map", [&](double s) { return Eps::scaledToUnscaledSatKrw(p, s); }, [&](double u) { return Eps::unscaledToScaledSatKrw(p, u); }, U.saturationKrwPoints(), S.saturationKrwPoints(), cs);
+    checkInverse(prefix + "inverse-map-krn-" + sys + M, "krn saturation map", [&](double s) { return Eps::scaledToUnscaledSatKrn(p, s); }, [&](double u) { return Eps::unscaledToScaledSatKrn(p, u); }, U.saturationKrnPoints(), S.saturationKrnPoints(), cs);
+    checkInverse(prefix + "inverse-map-pc-" + sys + M, "pc saturation map", [&](double s) { return Eps::scaledToUnscaledSatPc(p, s); }, [&](double u) { return Eps::unscaledToScaledSatPc(p, u); }, U.saturationPcPoints(), S.saturationPcPoints(), cs);
+}
+
 static void expectB(bool ok, const std::string& key, const std::string& what, const std::string& cs) { if (!ok) R->violation(key, what + " [" + cs + "]", rp_(cs)); }
 
 static void runB(const std::vector<BaseB>& bases, int b, int mode, const std::vector<std::pair<int, int>>& sub) {
@@ -511,6 +535,8 @@ static void runB(const std::vector<BaseB>& bases, int b, int mode, const std::ve
         val(SOGCR, "satmap-krg-mid", GOEps::scaledToUnscaledSatKrn(god, S.sogcr), T.sogcr);
         val(SGCR, "satmap-krog-mid", GOEps::scaledToUnscaledSatKrw(god, 1.0 - S.swl - S.sgcr), 1.0 - T.swl - T.sgcr);
     }
+    checkInverseAll<OWEps>("C15:eps:", M, "oil-water", owd, cs);
+    checkInverseAll<GOEps>("C15:eps:", M, "gas-oil", god, cs);
     // values at the scaled end-points
     val(SWCR, "krw-at-scaled-critical", krw(S.swcr), 0.0);
     val(KRW, "krw-at-scaled-max", krw(S.swu), S.krw);
@@ -644,10 +670,20 @@ static DeckC buildC(const HystTabs& h, int model, bool both) {
 static std::string histStr(const std::vector<int>& h) { return vf::join_ints(h); }
 static const char* modelName(int m) { return m == 0 ? "carlson0" : m == 1 ? "carlson1" : m == 2 ? "killough2" : m == 3 ? "killough3" : "killough4"; }
 
+// options used by part d (hysteresis x end-point scaling); part c runs with the defaults
+struct BfsOpt {
+    const std::vector<Event>* events = nullptr;   // own event alphabet
+    std::vector<int> enabled; bool haveEnabled = false;
+    int wc = -1, nfresh = KFRESH, refCell = 0, identical = -1;
+    bool numericPlateau = false;
+    std::string tag, csPrefix, cp = "c_", label;
+};
 struct BfsC {
     const HystTabs& H; CfgC cfg; DeckC& D; int maxdepth;
     const std::vector<Event>& g_events;
     Mgr& m; unsigned wc;                          // work cell
+    BfsOpt opt; bool identical; std::string cp;
+    std::vector<double> owDrain, goDrain;         // drainage curves of the reference (hysteresis-free) manager, same end-points
     std::string tag, csPrefix;
     Snap pristine;
     struct St { std::vector<int> hist; Snap snap; Ref ref; uint64_t beh; };
@@ -658,12 +694,20 @@ struct BfsC {
     uint64_t ntrans = 0, nfreshval = 0, nsnapval = 0, nrevisit = 0;
     std::vector<int> enabled;                     // events inside the tables' domain (Sw >= connate water)
 
-    BfsC(const HystTabs& h, CfgC c, DeckC& d, int md) : H(h), cfg(c), D(d), maxdepth(md), g_events(eventsOf(c.levels)), m(*d.w.mgr), wc(c.imb * KFRESH) {
-        tag = std::string("C15:hyst:") + modelName(cfg.model);
-        csPrefix = "c " + std::to_string(cfg.table) + " " + std::to_string(cfg.model) + " " + (cfg.both ? "BOTH" : "KR") + " " + std::to_string(cfg.imb) + " " + std::to_string(cfg.levels) + " ";
+    BfsC(const HystTabs& h, CfgC c, DeckC& d, int md, BfsOpt o = {}) : H(h), cfg(c), D(d), maxdepth(md), g_events(o.events ? *o.events : eventsOf(c.levels)), m(*d.w.mgr), wc(o.wc >= 0 ? o.wc : c.imb * KFRESH), opt(o) {
+        tag = opt.tag.empty() ? std::string("C15:hyst:") + modelName(cfg.model) : opt.tag;
+        csPrefix = !opt.csPrefix.empty() ? opt.csPrefix : "c " + std::to_string(cfg.table) + " " + std::to_string(cfg.model) + " " + (cfg.both ? "BOTH" : "KR") + " " + std::to_string(cfg.imb) + " " + std::to_string(cfg.levels) + " ";
+        identical = opt.identical >= 0 ? opt.identical != 0 : cfg.imb <= 1;
+        cp = opt.cp;
         pristine = take(wc);
-        for (int e = 0; e < (int)g_events.size(); ++e) if (g_events[e].sw >= D.swco) enabled.push_back(e);
+        if (opt.haveEnabled) enabled = opt.enabled;
+        else for (int e = 0; e < (int)g_events.size(); ++e) if (g_events[e].sw >= D.swco) enabled.push_back(e);
+        for (int k = 0; k <= NL; ++k) {
+            owDrain.push_back(OWLaw::twoPhaseSatKrn(refReal().oilWaterParams(), double(k) / NL));
+            goDrain.push_back(GOLaw::twoPhaseSatKrn(refReal().gasOilParams(), double(k) / NL));
+        }
     }
+    const Law::DefaultMaterial::Params& refReal() { return D.ref.mgr->materialLawParams(opt.refCell).template getRealParams<DefaultApproach>(); }
     auto& real(unsigned cell) { return m.materialLawParams(cell).template getRealParams<DefaultApproach>(); }
     Snap take(unsigned cell) { auto& r = real(cell); return Snap{r.oilWaterParams(), r.gasOilParams()}; }
     void put(unsigned cell, const Snap& s) { auto& r = real(cell); r.oilWaterParams() = s.ow; r.gasOilParams() = s.go; }
@@ -722,15 +766,20 @@ struct BfsC {
             }
         }
     }
-    bool onPlateau(const char* sys, double s) const {
+    bool onPlateau(const char* sys, double s) {
         // is s inside / at the end of a flat, non-zero segment of the drainage non-wetting curve?
+        if (opt.numericPlateau) {
+            const double lo = std::max(0.0, s - 1.0 / 128);
+            const double a = sys[0] == 'o' ? OWLaw::twoPhaseSatKrn(refReal().oilWaterParams(), s) : GOLaw::twoPhaseSatKrn(refReal().gasOilParams(), s);
+            const double b = sys[0] == 'o' ? OWLaw::twoPhaseSatKrn(refReal().oilWaterParams(), lo) : GOLaw::twoPhaseSatKrn(refReal().gasOilParams(), lo);
+            return a != 0.0 && a == b;
+        }
         std::vector<double> x, y;
         if (sys[0] == 'o') { x = H.dw.x; y = H.dw.b; }
         else { for (size_t i = H.dg.x.size(); i-- > 0;) { x.push_back((1.0 - D.swco) - H.dg.x[i]); y.push_back(H.dg.a[i]); } }
         for (size_t i = 0; i + 1 < x.size(); ++i) if (y[i] == y[i + 1] && y[i] != 0.0 && s >= x[i] - 1e-12 && s <= x[i + 1] + 1e-12) return true;
         return s < x.front() && y.front() != 0.0;
     }
-    const auto& refReal() { return D.ref.mgr->materialLawParams(0).template getRealParams<DefaultApproach>(); }
     // reference model vs. getters (cheap; every transition)
     void checkRef(const Ref& ref, const std::string& cs) {
         auto& r = real(wc);
@@ -743,12 +792,12 @@ struct BfsC {
             R->violation(tag + ":pc-turning-point-not-history-minimum", "pcSwMdc (ow " + g17(ow.pcSwMdc()) + ", go " + g17(go.pcSwMdc()) + ") != minima of the history (" + g17(ref.owPc) + ", " + g17(ref.goPc) + ") [" + cs + "]", rp_(cs));
         // before the first reversal the current saturation sits on the drainage curve (exactly)
         if (!ref.owRev && ref.owKrn <= 1.0) {
-            R->count("c_transitions_before_first_reversal_ow");
+            R->count(cp + "transitions_before_first_reversal_ow");
             if (OWLaw::twoPhaseSatKrn(ow, ref.owKrn) != OWLaw::twoPhaseSatKrn(refReal().oilWaterParams(), ref.owKrn))
                 R->violation(tag + ":oil-water:not-on-drainage-before-first-reversal", "krn at the current saturation " + g17(ref.owKrn) + " differs from the drainage curve although the saturation never reversed [" + cs + "]", rp_(cs));
         }
         if (!ref.goRev && ref.goKrn <= 1.0) {
-            R->count("c_transitions_before_first_reversal_go");
+            R->count(cp + "transitions_before_first_reversal_go");
             if (GOLaw::twoPhaseSatKrn(go, ref.goKrn) != GOLaw::twoPhaseSatKrn(refReal().gasOilParams(), ref.goKrn))
                 R->violation(tag + ":gas-oil:not-on-drainage-before-first-reversal", "krn at the current saturation " + g17(ref.goKrn) + " differs from the drainage curve although the saturation never reversed [" + cs + "]", rp_(cs));
         }
@@ -758,10 +807,17 @@ struct BfsC {
         auto& r = real(wc);
         std::vector<double> v; std::vector<char> kind; behaviour(v, kind);
         std::vector<double> kn(v.begin(), v.begin() + NL + 1), kg(v.begin() + NL + 1, v.begin() + 2 * NL + 2);
-        checkSystem<OWLaw>("oil-water", r.oilWaterParams(), D.owDrain, ref.owKrn, ref.owRev, kn, cs);
-        checkSystem<GOLaw>("gas-oil", r.gasOilParams(), D.goDrain, ref.goKrn, ref.goRev, kg, cs);
+        checkSystem<OWLaw>("oil-water", r.oilWaterParams(), owDrain, ref.owKrn, ref.owRev, kn, cs);
+        checkSystem<GOLaw>("gas-oil", r.gasOilParams(), goDrain, ref.goKrn, ref.goRev, kg, cs);
+        if (opt.numericPlateau) {
+            // vacuity guard of part d: turning points whose tabulated image lies strictly between the table's and the cell's middle krn node
+            const auto& oi = r.oilWaterParams().imbibitionParams(); const auto& gi = r.gasOilParams().imbibitionParams();
+            auto between = [](double u, double a, double b) { return a != b && u > std::min(a, b) && u < std::max(a, b); };
+            if (ref.owKrn <= 1.0 && between(OWEps::scaledToUnscaledSatKrn(oi, ref.owKrn), oi.unscaledPoints().saturationKrnPoints()[1], oi.scaledPoints().saturationKrnPoints()[1])) R->count(cp + "states_turning_point_between_table_and_cell_mid_node_ow");
+            if (ref.goKrn <= 1.0 && between(GOEps::scaledToUnscaledSatKrn(gi, ref.goKrn), gi.unscaledPoints().saturationKrnPoints()[1], gi.scaledPoints().saturationKrnPoints()[1])) R->count(cp + "states_turning_point_between_table_and_cell_mid_node_go");
+        }
         // (4) Carlson with identical drainage and imbibition curves: nothing changes
-        if (cfg.model <= 1 && cfg.imb <= 1 && !obs0.empty()) {
+        if (cfg.model <= 1 && identical && !obs0.empty()) {
             for (size_t k = 0; k < v.size(); ++k) {
                 if (kind[k] == 'p' && cfg.both) continue;            // pc hysteresis is Killough's model, not Carlson's
                 if (!close_(v[k], obs0[k])) {
@@ -769,7 +825,7 @@ struct BfsC {
                     bool plateau = false;
                     if (kind[k] == 'n' || kind[k] == 'k') plateau = plateau || onPlateau("oil-water", ref.owKrn);
                     if (kind[k] == 'g' || kind[k] == 'k') plateau = plateau || onPlateau("gas-oil", ref.goKrn);
-                    R->violation(tag + ":identical-curves-change-" + q + (plateau ? ":reversal-on-max-plateau" : ""), std::string("identical drainage and imbibition curves (") + (cfg.imb == 0 ? "IMBNUM = SATNUM" : "IMBNUM region is a copy of the SATNUM region") + "), yet " + q + " entry " + std::to_string(k) + " changed from " + g17(obs0[k]) + " to " + g17(v[k]) + " (turning points ow " + g17(ref.owKrn) + " go " + g17(ref.goKrn) + ") [" + cs + "]", rp_(cs));
+                    R->violation(tag + ":identical-curves-change-" + q + (plateau ? ":reversal-on-max-plateau" : ""), std::string("identical drainage and imbibition curves (") + (cfg.imb == 0 ? "IMBNUM = SATNUM" : "IMBNUM region is a copy of the SATNUM region") + (opt.label.empty() ? "" : ", " + opt.label) + "), yet " + q + " entry " + std::to_string(k) + " changed from " + g17(obs0[k]) + " to " + g17(v[k]) + " (turning points ow " + g17(ref.owKrn) + " go " + g17(ref.goKrn) + ") [" + cs + "]", rp_(cs));
                     break;
                 }
             }
@@ -810,7 +866,7 @@ struct BfsC {
                     St n; n.hist = h2; n.snap = take(wc); n.ref = ref; n.beh = checkState(ref, CS());
                     // validate the new state by replaying its whole history from scratch
                     unsigned cell = 0; bool fresh = false;
-                    if (nextFresh < (unsigned)KFRESH) { cell = wc + nextFresh++; fresh = true; }
+                    if (nextFresh < (unsigned)opt.nfresh) { cell = wc + nextFresh++; fresh = true; }
                     else { cell = wc; put(wc, pristine); }
                     for (int ee : h2) apply(cell, ee);
                     if (key(cell) != k2) R->violation(tag + ":replay-from-scratch-differs", "state reached by snapshot/restore differs from the state reached by replaying the history on a fresh cell [" + CS() + "]", rp_(CS()));
@@ -826,14 +882,14 @@ struct BfsC {
             }
         }
         R->states += states.size(); R->transitions += ntrans; R->traces_validated += nfreshval + nsnapval; R->evaluations += ntrans;
-        R->count("c_frontier_left", frontier.size());
-        R->count("c_replayed_on_fresh_cell", nfreshval);
-        R->count("c_replayed_from_pristine_snapshot", nsnapval);
-        R->count("c_revisits_behaviour_rechecked", nrevisit);
-        for (auto& [kk, s] : states) R->count("c_states_first_reached_at_depth_" + std::to_string(s.hist.size()));
+        R->count(cp + "frontier_left", frontier.size());
+        R->count(cp + "replayed_on_fresh_cell", nfreshval);
+        R->count(cp + "replayed_from_pristine_snapshot", nsnapval);
+        R->count(cp + "revisits_behaviour_rechecked", nrevisit);
+        for (auto& [kk, s] : states) R->count(cp + "states_first_reached_at_depth_" + std::to_string(s.hist.size()));
         if (R->samples.size() < 6 && !states.empty()) {
             const St* deep = nullptr; for (auto& [kk, s] : states) if (!deep || s.hist.size() > deep->hist.size()) deep = &s;
-            R->sample_str(csPrefix + histStr(deep->hist) + " (" + H.name + ", " + modelName(cfg.model) + "): " + std::to_string(states.size()) + " states, " + std::to_string(ntrans) + " transitions");
+            R->sample_str(csPrefix + histStr(deep->hist) + " (" + H.name + ", " + modelName(cfg.model) + (opt.label.empty() ? "" : ", " + opt.label) + "): " + std::to_string(states.size()) + " states, " + std::to_string(ntrans) + " transitions");
         }
     }
     // replay of one history with all checks along the path
@@ -886,20 +942,140 @@ static void partC(bool thorough) {
     }
 }
 
+// ============================================================ part d =======
+// hysteresis x end-point scaling: the BFS of part c on cells whose drainage AND imbibition end-points are moved.
+static const int KD = 48;                     // cells per column (work cell + fresh replay cells)
+struct EpVal { const char* arr; double drain, imbA; };          // value of the drainage array; value of the I-array for the genuine imbibition table
+struct EpSet { const char* name; std::vector<EpVal> v; };
+// drainage table: SWL .125 SWCR .375 SWU 1 SGL 0 SGCR .125 SGU .875 SOWCR .25 SOGCR .375
+// imbibition table A: ISWL .125 ISWCR .375 ISWU 1 ISGL 0 ISGCR .25 ISGU .875 ISOWCR .375 ISOGCR .375
+static std::vector<EpSet> epSets() {
+    return {
+        {"identity", {{"SWL", .125, .125}, {"SWCR", .375, .375}, {"SWU", 1.0, 1.0}, {"SGCR", .125, .25}, {"SGU", .875, .875}, {"SOWCR", .25, .375}, {"SOGCR", .375, .375}}},
+        {"critical-up", {{"SWCR", .5, .5}, {"SOWCR", .3125, .4375}, {"SGCR", .1875, .3125}, {"SOGCR", .5, .5}}},
+        {"critical-down", {{"SWCR", .25, .25}, {"SOWCR", .125, .25}, {"SGCR", .0625, .1875}, {"SOGCR", .25, .25}}},
+        {"connate-down", {{"SWL", .0625, .0625}}},
+        {"maximum-down", {{"SWU", .9375, .9375}, {"SGU", .75, .75}}},
+        {"all-moved", {{"SWL", .0625, .0625}, {"SWCR", .5, .5}, {"SWU", .9375, .9375}, {"SGCR", .1875, .3125}, {"SGU", .8125, .8125}, {"SOWCR", .125, .25}, {"SOGCR", .25, .25}}},
+    };
+}
+static HystTabs tabsD() {
+    HystTabs h; h.name = "D4";
+    h.dw = {{0.125, 0.375, 0.5625, 0.75, 1.0}, {0, 0, 0.2, 0.5, 0.8}, {0.9, 0.55, 0.25, 0, 0}, {2.0, 1.0, 0.5, 0.2, 0}};
+    h.dg = {{0, 0.125, 0.3125, 0.5, 0.6875, 0.875}, {0, 0, 0.15, 0.4, 0.7, 0.95}, {0.9, 0.6, 0.2, 0, 0, 0}, {0, 0.05, 0.1, 0.2, 0.3, 0.5}};
+    Tab iw{{0.125, 0.375, 0.5, 0.625, 1.0}, {0, 0, 0.2, 0.35, 0.8}, {0.9, 0.4, 0.15, 0, 0}, {1.5, 0.7, 0.3, 0.15, 0}};
+    Tab ig{{0, 0.25, 0.375, 0.5, 0.6875, 0.875}, {0, 0, 0.15, 0.3, 0.6, 0.95}, {0.9, 0.35, 0.1, 0, 0, 0}, {0, 0.1, 0.15, 0.2, 0.3, 0.5}};
+    h.iw = {iw, iw}; h.ig = {ig, ig};
+    return h;
+}
+struct CfgD { int model; bool both; int mode, eset, imb, levels; };     // mode 2|3; imb 0: IMBNUM = SATNUM and I-arrays = arrays (identical curves), 1: imbibition table A with its own moved I-arrays
+static std::string csD(const CfgD& c) { return "d " + std::to_string(c.model) + " " + (c.both ? "BOTH" : "KR") + " " + std::to_string(c.mode) + " " + std::to_string(c.eset) + " " + std::to_string(c.imb) + " " + std::to_string(c.levels) + " "; }
+static unsigned colD(const CfgD& c) { return (c.eset * 2 + c.imb) * KD; }
+
+static DeckC buildD(const HystTabs& h, int model, bool both, int mode) {
+    const auto sets = epSets();
+    DeckSpec d; d.ncell = int(sets.size()) * 2 * KD; d.nreg = 4; d.endscale = true; d.threept = mode == 3;
+    d.swof = {h.dw, h.dw, h.iw[0], h.iw[1]}; d.sgof = {h.dg, h.dg, h.ig[0], h.ig[1]};
+    d.satnum = std::to_string(d.ncell) + "*1";
+    std::string drainEq = "EQUALS\n", imbEq = "EQUALS\n";
+    for (size_t e = 0; e < sets.size(); ++e) for (int imb = 0; imb < 2; ++imb) {
+        const int c0 = (int(e) * 2 + imb) * KD + 1, c1 = c0 + KD - 1;
+        const std::string box = " " + std::to_string(c0) + " " + std::to_string(c1) + " 1 1 1 1 /\n";
+        d.imbnum += std::to_string(KD) + "*" + (imb ? "3 " : "1 ");
+        for (auto& v : sets[e].v) {
+            drainEq += std::string(" ") + v.arr + " " + g17(v.drain) + box;
+            imbEq += std::string(" I") + v.arr + " " + g17(imb ? v.imbA : v.drain) + box;
+        }
+    }
+    drainEq += "/\n"; imbEq += "/\n";
+    d.props_extra = drainEq + imbEq;
+    d.ehystr = "0.1 " + std::to_string(model) + " 1.0 0.1 " + (both ? "BOTH" : "KR");
+    DeckC dc;
+    dc.w = build(deck_text(d), d.ncell);
+    DeckSpec u = d; u.ehystr.clear(); u.imbnum.clear(); u.props_extra = drainEq;       // same cells, same drainage end-points, no hysteresis
+    dc.ref = build(deck_text(u), d.ncell);
+    dc.swco = h.dw.x.front();
+    return dc;
+}
+// events of one column: oil-water moves (Sg = 0), gas-oil moves (Sw = the cell's SWL) on the 1/levels lattice inside the
+// cell's scaled domain [SWL, 1] x [0, SGU], and (thorough) three genuine three-phase points
+static bool g_threePhaseEventsD = false;        // thorough only
+static std::vector<Event> eventsD(const EpSet& es, int levels) {
+    double swl = .125, sgu = .875;
+    for (auto& v : es.v) { if (std::string(v.arr) == "SWL") swl = v.drain; if (std::string(v.arr) == "SGU") sgu = v.drain; }
+    std::vector<Event> ev;
+    for (int k = 0; k <= levels; ++k) { const double sw = double(k) / levels; if (sw >= swl) ev.push_back({sw, 0.0}); }
+    for (int k = 1; k <= levels; ++k) { const double sg = double(k) / levels; if (sg <= sgu && sg <= 1.0 - swl) ev.push_back({swl, sg}); }
+    if (g_threePhaseEventsD) { ev.push_back({0.25, 0.25}); ev.push_back({0.25, 0.5}); ev.push_back({0.5, 0.25}); }
+    return ev;
+}
+static void runD(const CfgD& c, DeckC& dc, const HystTabs& h, int depth, const std::vector<int>* replay = nullptr) {
+    const auto sets = epSets();
+    const std::vector<Event> ev = eventsD(sets[c.eset], c.levels);
+    BfsOpt o; o.events = &ev; o.haveEnabled = true; for (int e = 0; e < (int)ev.size(); ++e) o.enabled.push_back(e);
+    o.wc = colD(c); o.refCell = colD(c); o.nfresh = KD; o.identical = c.imb == 0; o.numericPlateau = true; o.cp = "d_";
+    o.tag = std::string("C15:hyst-eps:") + modelName(c.model) + (c.mode == 3 ? ":3pt" : ":2pt");
+    o.csPrefix = csD(c);
+    o.label = std::string(c.mode == 3 ? "three-point" : "two-point") + " scaling, end-point set " + sets[c.eset].name + (c.imb ? ", imbibition table A" : ", I-arrays = drainage arrays");
+    Mgr& m = *dc.w.mgr;
+    // the maps of this cell (drainage and imbibition parameter objects) are mutual inverses
+    {
+        const auto& rp = m.materialLawParams(o.wc).template getRealParams<DefaultApproach>();
+        const std::string M = c.mode == 3 ? ":3pt" : ":2pt", cs = o.csPrefix + "-";
+        checkInverseAll<OWEps>("C15:hyst-eps:drainage-", M, "oil-water", rp.oilWaterParams().drainageParams(), cs);
+        checkInverseAll<OWEps>("C15:hyst-eps:imbibition-", M, "oil-water", rp.oilWaterParams().imbibitionParams(), cs);
+        checkInverseAll<GOEps>("C15:hyst-eps:drainage-", M, "gas-oil", rp.gasOilParams().drainageParams(), cs);
+        checkInverseAll<GOEps>("C15:hyst-eps:imbibition-", M, "gas-oil", rp.gasOilParams().imbibitionParams(), cs);
+    }
+    BfsC b(h, CfgC{0, c.model, c.both, c.imb, c.levels}, dc, depth, o);
+    if (replay) { b.replay(*replay); return; }
+    b.run();
+    R->count("d_configs");
+    R->count(std::string("d_states_flag_") + (c.both ? "BOTH" : "KR") + "_levels_" + std::to_string(c.levels + 1), b.states.size());
+}
+static void partD(bool thorough) {
+    const HystTabs h = tabsD();
+    const int depth = thorough ? 6 : 5;
+    std::vector<CfgD> cfgs;
+    const int nsets = epSets().size();
+    std::vector<int> models = thorough ? std::vector<int>{0, 1, 2, 3, 4} : std::vector<int>{0, 1, 2, 3};
+    for (int model : models) for (int both = 0; both < (thorough ? 2 : 1); ++both) for (int mode = 2; mode <= 3; ++mode) for (int e = 0; e < nsets; ++e) for (int imb = 0; imb < 2; ++imb)
+        cfgs.push_back({model, both != 0, mode, e, imb, 16});
+    if (thorough) for (int model : models) for (int mode = 2; mode <= 3; ++mode) for (int e = 0; e < nsets; ++e) for (int imb = 0; imb < 2; ++imb) cfgs.push_back({model, false, mode, e, imb, 32});
+    std::map<std::string, DeckC> decks;
+    for (auto& c : cfgs) {
+        if (R->timed_out()) return;
+        if (!R->mine()) continue;
+        const std::string dk = std::to_string(c.model) + "/" + (c.both ? "B" : "K") + "/" + std::to_string(c.mode) + "/" + std::to_string(c.levels);
+        R->current(csD(c) + "-");
+        try {
+            if (!decks.count(dk)) decks.emplace(dk, buildD(h, c.model, c.both, c.mode));
+        } catch (const std::exception& e) {
+            R->violation("C15:hyst-eps:setup-exception", std::string("building the material law manager threw: ") + e.what() + " [" + dk + "]", rp_(csD(c) + "-"));
+            continue;
+        }
+        runD(c, decks.at(dk), h, depth);
+    }
+}
+
 // ============================================================ main =========
 int main(int argc, char** argv) {
     vf::Run run("C15", argc, argv); R = &run;
     for (int i = 0; i <= 8; ++i) for (int j = 0; i + j <= 8; ++j) g_ev8.push_back({i / 8.0, j / 8.0});
     for (int i = 0; i <= 16; ++i) for (int j = 0; i + j <= 16; ++j) g_ev16.push_back({i / 16.0, j / 16.0});
     const bool T = run.thorough();
+    run.max_samples = 10;
+    g_threePhaseEventsD = T;
     run.rule = std::string("(a) every combination of the SWOF/SGOF node-layout alphabet {connate water, critical != connate, residual oil, 1-2 interior nodes, end-point kr < 1, 3 pc shapes") + (T ? ", Swu/Sgu below maximum" : "") + "}, 3-5 nodes, two regions per deck (plus single-region and FIELD-unit decks), family I and the family II deck on the same nodes: node reproduction, bracketing by neighbouring nodes + monotone + range on the 101-point lattice, family I == family II (1e-12) on the 1-D lattices and the 21-level (Sw,Sg) triangle; "
-               "(b) ENDSCALE: all subsets of size <= " + (T ? "3" : "2") + " of 17 end-point arrays x 2 shifted values each in one cell, two- and three-point (SCALECRS) scaling, " + (T ? "6" : "3") + " base tables: scaled end-points -> table end-points (saturation maps, kr = 0 at scaled critical, kr = scaled max at scaled maximum, KR*R at the displacing critical saturation with three-point scaling, PCW/PCG), explicit and defaulted own end-points are the identity (1e-12) on the same lattices; "
-               "(c) BFS over updateHysteresis(fluidState, cell) histories to depth " + (T ? "6" : "5") + " (closed earlier: frontier 0), events = all points of the 9-level (Sw,Sg) triangle with Sw >= connate water (36-45 events)" + (T ? ", and again the 17-level triangle (120-153 events)" : "") + ", EHYSTR models " + (T ? "0-4" : "0-3") + " x {KR,BOTH} x " + (T ? "3" : "2") + " drainage tables x 4 IMBNUM choices (same region, copied region, 2 genuine imbibition tables), state key = all hysteresis getters of both two-phase laws; per transition: turning points (krnSwMdc, krwSwMdc, pcSwMdc) = running extremes of the history, krn at the current saturation == drainage curve while the saturation never reversed; per distinct state: krn == drainage curve (bitwise, manager without hysteresis) on the drainage side of the turning point, continuity at the reversal point (1e-10, one ulp past it), krn monotone on the 65-point lattice, Carlson + identical curves => all kr unchanged (1e-12)";
+               "(b) ENDSCALE: all subsets of size <= " + (T ? "3" : "2") + " of 17 end-point arrays x 2 shifted values each in one cell, two- and three-point (SCALECRS) scaling, " + (T ? "6" : "3") + " base tables: scaled end-points -> table end-points (saturation maps, kr = 0 at scaled critical, kr = scaled max at scaled maximum, KR*R at the displacing critical saturation with three-point scaling, PCW/PCG), explicit and defaulted own end-points are the identity (1e-12) on the same lattices, scaledToUnscaledSat{Krw,Krn,Pc} and unscaledToScaledSat{Krw,Krn,Pc} are mutual inverses (1e-12) on 65 points between the outer anchors in both directions; "
+               "(c) BFS over updateHysteresis(fluidState, cell) histories to depth " + (T ? "6" : "5") + " (closed earlier: frontier 0), events = all points of the 9-level (Sw,Sg) triangle with Sw >= connate water (36-45 events)" + (T ? ", and again the 17-level triangle (120-153 events)" : "") + ", EHYSTR models " + (T ? "0-4" : "0-3") + " x {KR,BOTH} x " + (T ? "3" : "2") + " drainage tables x 4 IMBNUM choices (same region, copied region, 2 genuine imbibition tables), state key = all hysteresis getters of both two-phase laws; per transition: turning points (krnSwMdc, krwSwMdc, pcSwMdc) = running extremes of the history, krn at the current saturation == drainage curve while the saturation never reversed; per distinct state: krn == drainage curve (bitwise, manager without hysteresis) on the drainage side of the turning point, continuity at the reversal point (1e-10, one ulp past it), krn monotone on the 65-point lattice, Carlson + identical curves => all kr unchanged (1e-12); "
+               "(d) product of (b) and (c): the same BFS and per-state oracles in SCALED saturation on ENDSCALE decks, EHYSTR models " + (T ? "0-4 x {KR,BOTH}" : "0-3 x KR") + " x {two-point, three-point SCALECRS} x 6 per-cell end-point sets {identity (control), critical saturations up, critical down, connate water down, maxima down, all moved} given as drainage arrays and I-arrays x 2 imbibition choices {IMBNUM = SATNUM with I-arrays = arrays (identical curves), genuine imbibition table with its own moved I-arrays}; events = oil-water moves (Sg = 0) and gas-oil moves (Sw = the cell's SWL) on the 17-level lattice inside the cell's scaled domain" + (T ? " plus three three-phase points, and again on the 33-level lattice (KR)" : "") + " (table nodes on 1/8, moved nodes 1/16-1/8 away, so reversal points fall between the table's and the cell's nodes: counted in d_states_turning_point_between_table_and_cell_mid_node_*); drainage oracle = manager of the same deck without hysteresis (same cell, same end-points); per cell the drainage and imbibition saturation maps are mutual inverses";
     run.assumptions = {"reference model of (a): piecewise-linear interpolation of the generated nodes; family II tables are generated on the family I nodes (SOF3 on the union of both node sets, interpolated values)",
                        "table end-points of (b) are read off the nodes by the harness (last kr = 0 node etc.); anchors of the two/three-point maps are those of the ECLIPSE manual (SWCR, 1-SOWCR-SGL, SWU; SWL+SGL, SWCR+SGL, 1-SOWCR; SGCR, 1-SOGCR-SWL, SGU; SOGCR, 1-SGCR-SWL, 1-SWL-SGL; pc: SWL,SWU / SGL,SGU); shifted values are chosen so that every combination stays ordered",
                        "three-phase oil relperm: the default (Baker-type) model; krow is observed at Sg = 0, krog at Sw = Swco, or through the two-phase law of the cell's parameter object",
                        "(c) states are restored by assigning a saved copy of the two hysteresis parameter objects of a cell; every new state is re-derived by replaying its history on a fresh cell (or from the pristine snapshot once the 191 fresh cells of a configuration are used up); invariants of a state are evaluated at its first visit and at every 32nd transition (same key must give the same behaviour hash); events below connate water are outside the tables' domain and excluded; imbibition tables share connate saturation and the maximum non-wetting relperm with the drainage table",
-                       "pc hysteresis (always Killough in opm) is exempt from the Carlson no-change claim"};
+                       "pc hysteresis (always Killough in opm) is exempt from the Carlson no-change claim",
+                       "(d) scaling 'none' x hysteresis is part (c); SGL is not moved and gas events stay at Sg <= SGU of the cell (a moved SGL or Sg beyond SGU creates an in-domain maximum plateau of the non-wetting relperm, i.e. the known Carlson plateau finding); no vertical (KR*/PC*) arrays in (d); the scanning curve is NOT required to lie between the drainage and the imbibition curve (not in the property text and not true for Carlson's shifted curve with non-parallel tables)"};
 
     if (!run.replay_path.empty()) {
         std::istringstream ss(run.replay_path); std::string part; ss >> part;
@@ -913,6 +1089,14 @@ int main(int argc, char** argv) {
             std::vector<std::pair<int, int>> sub;
             if (s != "-") { std::istringstream t(s); std::string tok; while (std::getline(t, tok, ',')) { int a = 0, v = 0; std::sscanf(tok.c_str(), "%d:%d", &a, &v); sub.push_back({a, v}); } }
             runB(bases, b, mode, sub);
+        } else if (part == "d") {
+            CfgD c{}; std::string flag, hs; ss >> c.model >> flag >> c.mode >> c.eset >> c.imb >> c.levels >> hs; c.both = flag == "BOTH";
+            std::vector<int> hist; if (hs != "-" && !hs.empty()) { std::istringstream q(hs); std::string tok; while (std::getline(q, tok, ',')) hist.push_back(std::atoi(tok.c_str())); }
+            try {
+                const HystTabs h = tabsD();
+                DeckC dc = buildD(h, c.model, c.both, c.mode);
+                runD(c, dc, h, 99, &hist);
+            } catch (const std::exception& e) { run.violation("C15:hyst-eps:setup-exception", e.what(), rp_(run.replay_path)); }
         } else if (part == "c") {
             int t, model, imb, levels; std::string flag, hs; ss >> t >> model >> flag >> imb >> levels >> hs;
             auto tabs = hystTables(true);
@@ -929,7 +1113,8 @@ int main(int argc, char** argv) {
     double t = run.elapsed();
     partA(T); run.notes["shard0_seconds_part_a"] = std::to_string(run.elapsed() - t); t = run.elapsed();
     partB(T); run.notes["shard0_seconds_part_b"] = std::to_string(run.elapsed() - t); t = run.elapsed();
-    partC(T); run.notes["shard0_seconds_part_c"] = std::to_string(run.elapsed() - t);
+    partC(T); run.notes["shard0_seconds_part_c"] = std::to_string(run.elapsed() - t); t = run.elapsed();
+    partD(T); run.notes["shard0_seconds_part_d"] = std::to_string(run.elapsed() - t);
     run.count("worlds_built", g_worlds);
     return run.finish();
 }
